@@ -46,6 +46,8 @@ def run(cx):
     frame_forward_exact(cx, "C11.t")
     from props.shared import half_connection_accept_exact
     half_connection_accept_exact(cx, "C11.u")
+    from props.C02 import inst_readiness_siblings
+    inst_readiness_siblings(cx, "C11.v")
     # a lost fragment that counts as acknowledged is never resent; the resync that follows skips the Reliable packet
     from props.C04 import inst_fragment_flags
     inst_fragment_flags(cx, "C11.s")
